@@ -25,16 +25,16 @@ T.update({
             "abstract interpretation (inductive invariant step + reference transformer)"),
     "C05": ("proof", "Query side: every neighbors() table row with caching off/cold/warm, semantic memo-key completeness over ordered pairs of settings; invalidation: ghost memo entry on every C01/C03 obligation with the flag on and off during the mutation (stale entry must be gone wherever the neighbour signature changed); registry scripts on objects with empty class-level state; traversals reach the graph only through neighbors().", "5/C05",
             "abstract interpretation with ghost state over the inductive mutator obligations + call-graph rule"),
-    "C06": ("exploration", "Bounded-exhaustive abstract evaluation of all six traversal functions over every neighbour map of a small scope plus a fixed-seed family of larger maps, against the reachability closure and the reference search schemas; forwarding of settings to neighbors() checked at the call interface.", "5/C06",
+    "C06": ("proof", "Schema-step proof (prologue + one loop iteration / recursive activation from abstract worklist states equals the text-book search step; if the code no longer has that shape the verdict falls back to the sweep alone and the evidence says `bounded`) and bounded-exhaustive abstract evaluation of all six traversal functions over every neighbour map of a small scope plus a fixed-seed family of larger maps, against the reachability closure and the reference search schemas; forwarding of settings to neighbors() checked at the call interface.", "5/C06",
             "small-scope abstract evaluation of whole functions against a reference schema (neighbors() stubbed at its interface)"),
-    "C07": ("exploration", "Same sweep as C06 comparing the listed sequence with canonical FIFO-BFS / pre-order DFS / mark-on-pop stack DFS; DET rule (no unordered or random source in order-defining code).", "5/C07",
+    "C07": ("proof", "Same schema-step proof and sweep as C06 comparing the listed sequence with canonical FIFO-BFS / pre-order DFS / mark-on-pop stack DFS; DET rule (no unordered or random source in order-defining code).", "5/C07",
             "small-scope abstract evaluation against reference search schemas + determinism lint on the traversal modules"),
     "C19": ("proof", "Inductive step for I19 against the partial-bijection model from every consistent binding of 2 universes x 3 law sets, every assignment from either side incl. None, and universe construction; rule attributes read back and reject assignment.", "5/C19",
             "abstract interpretation (inductive invariant step + reference model)"),
 })
 
 T.update({
-    "C08": ("exploration", "Sibling cross-check: on every neighbour map of the scope (exhaustive small scope + fixed-seed family), each search's result equals the first matching vertex of the listing derived from its traversal; attribute values are equal-but-not-identical / unequal / absent, vertices plain or falsy-valued; settings passed to neighbors() must be the traversal's defaults.", "5/C08",
+    "C08": ("proof", "Schema-step proof for the three searches (step = traversal step with emit replaced by the match test, from abstract states in which no marked vertex matches; falls back to the sweep when the shape differs) plus sibling cross-check: on every neighbour map of the scope (exhaustive small scope + fixed-seed family), each search's result equals the first matching vertex of the listing derived from its traversal; attribute values are equal-but-not-identical / unequal / absent, vertices plain or falsy-valued; settings passed to neighbors() must be the traversal's defaults.", "5/C08",
             "small-scope abstract evaluation, relational check between sibling functions of the same source"),
     "C16": ("proof", "basic_render evaluated on symbolic strings (vertex renderings are opaque atoms) over graphs with 0/1/2/3 forward neighbours, self-loops, parallel, undirected and incoming-only edges, with and without rfunc/sort; result must match the specified line template; loop uniformity extends the template to any neighbour count.", "5/C16",
             "abstract interpretation with a symbolic-string domain"),
